@@ -86,6 +86,9 @@ func getArgs(p *parser) (*token, *token) {
 		if len(arg.Tokens) > 0 {
 			typ = arg.Tokens[0]
 		} else {
+			if typ == nil {
+				panicf("missing type of parameter %v", arg.Text)
+			}
 			arg.Append(typ)
 		}
 	}
